@@ -148,7 +148,7 @@ def fam_data(r, name, lifetimes=False):
     return decorate_common(r, spec, True)
 
 
-CONFIGS = ["d_std", "a_nostd", "b_renamed", "b_nested", "b_alias", "c_shadow"]
+CONFIGS = ["d_std", "a_nostd", "b_renamed", "b_nested", "b_alias", "b_abs", "c_shadow"]
 
 
 def render(spec, cfg):
@@ -163,6 +163,11 @@ def render(spec, cfg):
         strum = "crate::reexp::strum_alias"
         s.crate_path = "crate::reexp::strum_alias"
         crate_pass = ", strum(crate = \"crate::reexp::strum_alias\")"
+    elif cfg == "b_abs":
+        # an absolute path (`::renamed`) must stay absolute: a local item called `renamed` must not capture it
+        strum = "::renamed"
+        s.crate_path = "::renamed"
+        crate_pass = ", strum(crate = \"::renamed\")"
     elif cfg == "b_alias":
         # the configured path is a single identifier that is a local `use` alias, not an extern crate name
         strum = "st"
@@ -177,6 +182,8 @@ def render(spec, cfg):
     src = s.render()
     if cfg == "c_shadow":
         src = "mod core {}\nmod std {}\nmod alloc {}\nmod strum_macros {}\n" + src
+    if cfg == "b_abs":
+        src = "mod renamed {}\n" + src
     return "pub mod m_%s {\n    use super::*;\n%s\n}\n" % (spec.name.lower(), src)
 
 
@@ -329,6 +336,18 @@ def check(run):
             summ, src, rendered = res["d_std"][s.name]
             run.violation("baseline:%s" % shards.norm_msg(summ), "corpus enum %s does not compile under the std baseline: %s" % (s.name, summ),
                           detail={"enum": s.render(), "diagnostics": rendered}, replay_src=src, replay_meta={"kind": "compile", "config": "d_std"})
+    # sanity of configuration (a): strum built with default-features = false must really be a no_std crate
+    # (its std-only `impl std::error::Error for ParseError` must not exist)
+    psrc = "fn needs_error<T: std::error::Error>() {}\nfn main() { needs_error::<strum::ParseError>(); }\n"
+    pp = run.path("c19_nostd_probe.rs")
+    open(pp, "w").write(psrc)
+    pc = core.rustc(pp, run.path("c19_nostd_probe.bin"), deps["nostd"])
+    run.evaluations += 1
+    run.distinct += 1
+    run.count("nostd-runtime-probe")
+    if pc.ok:
+        run.violation("nostd:runtime-crate-links-std", "strum built with default-features = false, features = [derive] still enables its std feature "
+                      "(std::error::Error is implemented for ParseError)", replay_src=psrc, replay_meta={"kind": "compile-fail", "deps": "nostd"})
     # sanity of configuration (b): without crate= the renamed build must fail for trait-emitting derives
     probe = [s for s in specs if res["d_std"][s.name] is None][:24]
     nocrate = compile_cfg(run, probe, "b_nocrate", deps["std"])
